@@ -146,6 +146,27 @@ def rule_boundary_and_apply(ctx):
     ctx.check("C16.1", ok_y0, fi, r.node, f"FBG: y0 = {y0!r}"[:200], "R(+1/2)=1, S(+1/2)=0 for every frequency", "initial state is not [ones(N), zeros(N)]: the reflection boundary condition S(+1/2)=0 is lost")
     fun = kw.get("fun")
     ctx.check("C16.1", isinstance(fun, FuncV) and fun.fi.name == "ode_system", fi, r.node, "FBG: integrates ode_system", "the checked system is the one integrated", "solve_ivp does not integrate ode_system")
+    # detuning / coupling passed to the ODE: evaluated on the optical grid of the simulation, lambda = 2*pi*c/(w_centred + 2*pi*gv.f0)
+    CC = Form.atom(("c", "scipy.constants.c"))
+    wc = mk_fn("fftshift", [2 * PI * mk_fn("fftfreq", [n]) * S("gv.fs")])
+    lam = 2 * PI * CC / (wc + 2 * PI * S("gv.f0"))
+    getv = lambda nm: env[nm][-1][0] if nm in env else S(nm)
+    lamD, Lg, dn, vdn = getv("landa_D"), getv("L"), getv("dneff"), getv("vdneff")
+    neff = S("neff")
+    col = lambda f: Form.atom(("idx", f, TupleV([SliceV(Const(None), Const(None), Const(None)), Const(None)])))
+    want_args = {
+        "detuning delta": 2 * PI * neff * (1 / lam - 1 / lamD) * Lg,
+        "dc coupling s": 2 * PI * dn / lam * Lg,
+        "ac coupling k": PI * vdn / lam * Lg,
+    }
+    args_t = kw.get("args")
+    if isinstance(args_t, TupleV) and len(args_t.items) >= 3:
+        for (label, want), got in zip(want_args.items(), args_t.items[:3]):
+            ok = got == col(want) or got == want or (isinstance(want, Form) and want.is_zero() and isinstance(got, Form) and (got.is_zero() or got == col(Form())))
+            ctx.check("C16.1", ok, fi, r.node, f"FBG: {label} passed to the ODE", "evaluated on lambda = 2*pi*c/(w_centred + 2*pi*gv.f0) with the resolved L, landa_D, dneff, vdneff",
+                      f"{label} is {got!r}; expected {col(want)!r}: the grating response is computed on a wavelength grid that is not the simulation's optical band (centred at gv.f0)"[:900])
+    else:
+        ctx.unknown("C16.1", fi, r.node, "FBG: ODE arguments", "args=(delta, s, k, ...) not found")
     # H = S/R of the last column
     Hs = env.get("H", [])
     if not Hs:
